@@ -22,8 +22,13 @@ func SmartRedirectSlashes(next http.Handler) http.Handler {
 		rctx := chi.RouteContext(r.Context())
 		if rctx != nil {
 			var path string
+			// Use the path chi routes on: the escaped path when there is
+			// one, so that an escaped slash inside a path value is not
+			// mistaken for a path separator (or for a trailing slash).
 			if rctx.RoutePath != "" {
 				path = rctx.RoutePath
+			} else if r.URL.RawPath != "" {
+				path = r.URL.RawPath
 			} else {
 				path = r.URL.Path
 			}
